@@ -385,7 +385,7 @@ fn wrap_if(needs_parens: bool, source: String) -> String {
     }
 }
 
-fn unary_op_to_source(op: &UnaryOp) -> &'static str {
+pub fn unary_op_to_source(op: &UnaryOp) -> &'static str {
     match op {
         UnaryOp::Negate => "-",
         UnaryOp::Not => "!",
@@ -393,7 +393,7 @@ fn unary_op_to_source(op: &UnaryOp) -> &'static str {
     }
 }
 
-fn postfix_op_to_source(op: &PostfixOp) -> &'static str {
+pub fn postfix_op_to_source(op: &PostfixOp) -> &'static str {
     match op {
         PostfixOp::Factorial => "!",
     }
